@@ -154,7 +154,20 @@ func mutate(r *vh.Rng, v interface{}, depth int) interface{} {
 		}
 		a := append([]interface{}{}, x...)
 		for ops := r.Intn(3) + 1; ops > 0; ops-- {
-			switch r.Intn(9) {
+			switch r.Intn(10) {
+			case 9: // an object replaced by its own key value, or a scalar by an object keyed with it
+				if len(a) > 0 {
+					i := r.Intn(len(a))
+					if m, ok := a[i].(map[string]interface{}); ok {
+						if k, has := m["__key"]; has {
+							a[i] = k
+						}
+					} else if a[i] != nil {
+						if _, isArr := a[i].([]interface{}); !isArr {
+							a[i] = map[string]interface{}{"__key": a[i], "a": genScalar(r)}
+						}
+					}
+				}
 			case 0: // insert
 				i := r.Intn(len(a) + 1)
 				var e interface{}
